@@ -50,7 +50,7 @@ TInit == \E i \in {j \in 1..Len(Trace) : Trace[j].t = "reset"} :
 TInvoke == /\ Trace[l].t = "inv"
            /\ LET e == Trace[l]
                   A1 == IF e.kind = "cset" THEN [A EXCEPT !.toks[e.k] = A.toks[e.k] \cup {e.v}]
-                        ELSE IF e.kind = "pput" THEN [A EXCEPT !.toks[e.k] = A.toks[e.k] \cup {"p"}] ELSE A
+                        ELSE IF e.kind = "pput" THEN [A EXCEPT !.toks[e.k] = A.toks[e.k] \cup {e.v}] ELSE A
               IN /\ pend[e.c].st = "none"
                  /\ A' = A1
                  /\ pend' = Refresh([pend EXCEPT ![e.c] = [st |-> "invoked", kind |-> e.kind, k |-> e.k, v |-> e.v,
